@@ -57,11 +57,28 @@ def _hyps(ctx, using, flatten=False):
     return [h for h in hyps if not has_quantifier(h)] + list(using)
 
 
-def lemma(ctx, name, formula, using=None, flatten=False):
-    """assert-then-assume like ctx.lemma, optionally proved from a named subset of the quantified hypotheses."""
+def lemma(ctx, name, formula, using=None, flatten=False, skolemize=False, instances=None):
+    """assert-then-assume like ctx.lemma, optionally proved from a named subset of the quantified hypotheses.
+    skolemize=True: a goal `forall x. P(x)` is handed to the solver as P(c) for fresh constants c (forall-introduction: c occurs in
+    no hypothesis, so the two obligations are equivalent; the solver's own Skolemisation does the same, this only makes the ground
+    terms of the goal visible from the start).  What is assumed afterwards is the quantified formula.
+    instances(c) -> [(hypothesis, (t1..tk))]: ground instances of universally quantified hypotheses (each checked to BE a hypothesis
+    of the path) added to the obligation's hypotheses -- forall-elimination, sound, and lets a lemma be proved without quantifiers."""
     from .values import zbool
     f = zbool(formula)
-    ctx.obligations.append(('lemma:' + name, _hyps(ctx, using, flatten), f, 'lemma', None, None))
+    goal, cs = f, []
+    if skolemize and z3.is_quantifier(f) and f.is_forall():
+        cs = [z3.Const(ctx.name('sk!%s!%s' % (name, f.var_name(i))), f.var_sort(i)) for i in range(f.num_vars())]
+        goal = z3.substitute_vars(f.body(), *reversed(cs))
+    hyps = _hyps(ctx, using, flatten)
+    if instances is not None:
+        allh = _flatten(list(ctx.hyps())) if flatten else list(ctx.hyps())
+        ids = set(h.get_id() for h in allh)
+        for h, args in instances(*cs):
+            if h.get_id() not in ids or not (z3.is_quantifier(h) and h.is_forall() and h.num_vars() == len(args)):
+                raise RuntimeError('lemma instance: not a universally quantified hypothesis of the path: %s' % str(h)[:200])
+            hyps.append(z3.substitute_vars(h.body(), *reversed(list(args))))
+    ctx.obligations.append(('lemma:' + name, hyps, goal, 'lemma', None, None))
     ctx.assume(f)
     return f
 
